@@ -102,7 +102,7 @@ func (g *envGen) faults(nmax int) [][2]any {
 	var fs [][2]any
 	n := 1 + g.r.Intn(2)
 	for i := 0; i < n; i++ {
-		fs = append(fs, [2]any{g.r.Intn(nmax), gen.Pick(g.r, []string{"err", "err", "dup", "errafter"})})
+		fs = append(fs, [2]any{g.r.Intn(nmax), gen.Pick(g.r, []string{"err", "err", "dup", "errafter", "cancel"})})
 	}
 	return fs
 }
